@@ -32,7 +32,7 @@ func init() {
 		Rule: "case = random program (tree depth<=2, wrappers, per-command unknown modes) + intended-parse item list rendered to argv with unique payloads; " +
 			"distinct = distinct (modes, item-shape sequence) signatures; non-trivial = at least one token must end up in remaining and at least one must be consumed" + genDims,
 		Assumptions: []string{"argv is rendered only where the documented rules make the intended parse unambiguous (DESIGN appendix A)"},
-		Cases:       func(tier string) int { return tierN(tier, 12000, 5000000) },
+		Cases:       func(tier string) int { return tierN(tier, 60000, 5000000) },
 		Run: func(seed uint64, idx int, tier string) *fw.Result {
 			r := CaseRng(seed, "C03", idx)
 			pc, sc := c03Cfg(r)
